@@ -89,9 +89,11 @@ def stats(c, r):
 
 e1check.run(dict(
     prop='C09', model='c09l', harness='e1/c09l.cpp', bin='e1_c09l', gen=gen, nontrivial=nontrivial, stats=stats,
-    quick=1500, thorough=40000, extra=6000,
+    quick=10000, thorough=400000, extra=20000,
     rule='random programs on one object, callers on OS threads under the baton: latch (2-6 threads, initial count 0-6, count_down(n)/arrive_and_wait(n) updates summing to exactly / less than / more than the count, wait, try_wait), event (2-5 threads, wait/set/occurred, a third of the cases with reset), call_once (2-6 threads, 1-2 calls each, callable throwing with probability 0..1); PRNG schedules (uniform / priority / sticky); non-trivial = at least one thread enqueued on the condition variable or lost the call_once CAS; distinct = distinct (program, schedule seed) text',
     corr_name='E1 log of harness/e1/c09l.cpp (real pika::latch / event / call_once) accepted by the Lean acceptors Latch.step / Once.step',
+    trusted_extra=['log parser of lean/Driver/LatchDrv.lean / OnceDrv.lean: grant lines of preemption points that carry no state change are dropped as stutter (latch.count_down, latch.inlock, event.wait, event.set, event.inlock, once.cas, once.reset, once.done, once.fail) and cv.pop / cv.all are merged with the agent resume lines that follow them inside the same atomic block',
+                   'try_wait / reset / occurred are one-line functions that cannot take an add-only hook: the harness invocation point is the preemption point in front of their single atomic access'],
     assumptions=['barrier part of C09 is checked separately (Props/C09Barrier.lean)',
                  'the execution agent resumes a suspended thread only after a resume call (no spurious wake-ups): latch::wait calls cond_.wait once without re-checking'],
 ))
